@@ -46,8 +46,10 @@ BolfiCtors(MaxC, MaxLen, NameSet) ==
 \* families are selected by a constant instead of being separate definitions)
 CONSTANT Family
 MCCtors ==
-  CASE Family = "quick" -> StructCtors({1, 2}) \cup ValueCtors({2, 3}, 2, 2) \cup BolfiCtors(2, 3, {<<1>>, <<2, 1>>})
+  CASE Family = "quick" -> StructCtors({1, 2}) \cup ValueCtors({2}, 2, 2) \cup ValueCtors({3}, 1, 1) \cup BolfiCtors(2, 3, {<<1>>, <<2, 1>>})
+    [] Family = "mid" -> StructCtors({1, 2}) \cup ValueCtors({2, 3}, 2, 2) \cup BolfiCtors(2, 3, {<<1>>, <<2, 1>>})
     [] Family = "thorough" -> StructCtors({0, 1, 2, 3}) \cup ValueCtors({1, 2, 3}, 2, 3) \cup ValueCtors({4}, 1, 2)
                               \cup BolfiCtors(3, 4, {<<1>>, <<2, 1>>, <<3, 1, 2>>})
+    [] Family = "cov" -> ValueCtors({1}, 0, 1) \cup BolfiCtors(1, 1, {<<1>>})      \* tiny: the run with -coverage
     [] Family = "neg" -> StructCtors({2}) \cup BolfiCtors(2, 3, {<<2, 1>>})
 =============================================================================
